@@ -182,6 +182,58 @@ func TestC11(t *testing.T) {
 			c.CompassId += "4"
 			mut("LightNodeSale.CompassId", ln, &c)
 		}
+		// ---- monitor: strings that differ only in letter case are different field values ----
+		flip := func(s string) (string, bool) {
+			b := []byte(s)
+			for i, c := range b {
+				if c >= 'a' && c <= 'z' {
+					b[i] = c - 32
+					return string(b), true
+				}
+				if c >= 'A' && c <= 'Z' {
+					b[i] = c + 32
+					return string(b), true
+				}
+			}
+			return s, false
+		}
+		{
+			c := *sp
+			if v, ok := flip(c.PalomaReceiver); ok {
+				c.PalomaReceiver = v
+				mut("SendToPaloma.PalomaReceiver(case)", sp, &c)
+			}
+			c = *sp
+			if v, ok := flip(c.TokenContract); ok {
+				c.TokenContract = v
+				mut("SendToPaloma.TokenContract(case)", sp, &c)
+			}
+			c = *sp
+			if v, ok := flip(c.EthereumSender); ok {
+				c.EthereumSender = v
+				mut("SendToPaloma.EthereumSender(case)", sp, &c)
+			}
+			c = *sp
+			if v, ok := flip(c.CompassId); ok {
+				c.CompassId = v
+				mut("SendToPaloma.CompassId(case)", sp, &c)
+			}
+			d := *bs
+			if v, ok := flip(d.TokenContract); ok {
+				d.TokenContract = v
+				mut("BatchSendToRemote.TokenContract(case)", bs, &d)
+			}
+			e := *ln
+			if v, ok := flip(e.ClientAddress); ok {
+				e.ClientAddress = v
+				mut("LightNodeSale.ClientAddress(case)", ln, &e)
+			}
+			e = *ln
+			if v, ok := flip(e.SmartContractAddress); ok {
+				e.SmartContractAddress = v
+				mut("LightNodeSale.SmartContractAddress(case)", ln, &e)
+			}
+		}
 		// ---- monitor: moving a separator between adjacent free-form fields (multi-field change) ----
 		joined := r.c11Str() + "/" + r.c11Str() + "/" + r.c11Str()
 		parts := strings.Split(joined, "/")
